@@ -228,8 +228,18 @@ def translate(repo: str) -> str:
     if len(sweeping) != 1:
         raise Refuse(tree(SY).body[0], f"{len(sweeping)} evaluate() methods sweep the symbol graph (expected 1)", fn)
     st = _stmts(sweeping[0])
-    if [g for g, _ in st] != ["SymbolGraph().remove_dead_instances()", "yield from map(self._process_result_, self._evaluate__())"]:
+    if [g for g, _ in st] != ["SymbolGraph().remove_dead_instances()",
+                              "for node in self._descendants_:\n    node._forget_evaluation_memory_()",
+                              "yield from map(self._process_result_, self._evaluate__())"]:
         raise Refuse(sweeping[0], f"evaluate(): unexpected body {[g for g, _ in st]}", fn)
+    # the per-evaluation hook: in symbolic.py only the base class defines it, with an empty body -- a variable keeps the
+    # domain it cached across top-level evaluations (what EvalV on a cached variable models)
+    hooks = [(c, n) for c in tree(SY).body if isinstance(c, ast.ClassDef) for n in c.body
+             if isinstance(n, ast.FunctionDef) and n.name == "_forget_evaluation_memory_"]
+    if len(hooks) != 1 or hooks[0][0].name != "SymbolicExpression" or _stmts(hooks[0][1]):
+        where = hooks[-1][1] if hooks else tree(SY).body[0]
+        raise Refuse(where, "_forget_evaluation_memory_ is defined in " + str([c.name for c, _ in hooks]) +
+                     " (expected: only SymbolicExpression, empty body): a node of a let(T, None) query forgets state between evaluations", fn)
     # state-updating methods: composition of statement idioms, in source order
     upd_defs = {}
     for rel, qual, params, gname, sig, arg in UPD_TARGETS:
